@@ -2154,6 +2154,8 @@ class binary(base_quantizer.BaseQuantizer):  # pylint: disable=invalid-name
       # otherwise the largest element of each group receives the rounding
       # residues of all the other elements.
       f = tf.stop_gradient(2 * m)
+      # a group of zeros has nothing to scale, and x / 0 would be NaN.
+      f = tf.where(f > 0.0, f, tf.ones_like(f))
 
       x = tf_utils.smart_cond(
           K.learning_phase(),
